@@ -307,22 +307,67 @@ func (g *gen) stmt(nest int, inIf bool, inLoop bool) *stmt {
 		return st
 	}
 	if nest < 3 && g.r.Chance(1, 70) {
-		// switch on a variable, distinct literal cases, simple statements in the clauses, default last.
-		// The model has no switch: the s-expression is the equivalent if/else chain (same source
-		// semantics), so these programs are tied through execution only (tag `switch`: no text comparison)
+		// switch on a variable, distinct literal cases, default last. Clauses hold simple statements,
+		// now and then a nested if / for / switch (no declaration directly in a clause: bondgo would put
+		// it into the enclosing block's scope), inside a loop a `continue`, and `break` — directly in the
+		// clause or under an `if` of the clause, inside and outside loops: it ends the switch (Go; bondgo
+		// since /repo 5d0e719, before it left the enclosing loop or was refused outside one).
 		st := &stmt{k: "sw", x: g.pickVar()}
 		simpleBody := func() []*stmt {
 			var b []*stmt
 			for i := 1 + g.r.Intn(2); i > 0; i-- {
-				switch g.r.Intn(3) {
+				switch g.r.Intn(4) {
 				case 0:
 					b = append(b, &stmt{k: "iow", x: g.r.Intn(g.p.nout), e: g.expr(1)})
 				case 1:
 					b = append(b, &stmt{k: "asg", x: g.pickVar(), e: g.expr(1)})
+				case 2:
+					if nest < 2 && g.budget > 0 {
+						markN, markS := len(g.p.names), len(g.scope)
+						cur := g.here[len(g.here)-1]
+						saved := map[string]bool{}
+						for k, v := range cur {
+							saved[k] = v
+						}
+						n := g.stmt(nest+1, true, false)
+						if n.k == "def" || n.k == "decl" {
+							// undo the declaration: the variable indices stay consecutive
+							g.p.names, g.scope = g.p.names[:markN], g.scope[:markS]
+							for k := range cur {
+								if !saved[k] {
+									delete(cur, k)
+								}
+							}
+							n = &stmt{k: "iow", x: g.r.Intn(g.p.nout), e: g.expr(1)}
+						} else if n.k != "iow" && n.k != "asg" && n.k != "inc" && n.k != "dec" && n.k != "tasg" {
+							g.p.tags["switch-nested"] = true
+						}
+						b = append(b, n)
+						continue
+					}
+					b = append(b, g.simple())
 				default:
 					b = append(b, g.simple())
 				}
 				g.p.nstmts++
+			}
+			switch {
+			case inLoop && g.r.Chance(1, 6):
+				b = append(b, &stmt{k: "cont"})
+				g.p.tags["continue"] = true
+				g.p.tags["switch-continue"] = true
+			case g.r.Chance(1, 4):
+				// break: last statement of the clause, in the middle of it (the rest is skipped), or guarded
+				brk := &stmt{k: "brk"}
+				if g.r.Bool() {
+					brk = &stmt{k: "if", ca: &expr{k: "var", n: g.pickVar()}, cb: &expr{k: "lit", n: g.r.Intn(4)}, t: []*stmt{{k: "brk"}}}
+				}
+				pos := g.r.Intn(len(b) + 1)
+				b = append(b[:pos], append([]*stmt{brk}, b[pos:]...)...)
+				g.p.tags["switch-break"] = true
+				if !inLoop {
+					g.p.tags["switch-break-noloop"] = true
+				}
 			}
 			return b
 		}
@@ -556,20 +601,15 @@ func (s *stmt) sx() string {
 	case "brk", "cont":
 		return s.k
 	case "sw":
-		// if x == v1 {B1} else { if x == v2 {B2} else { … default … } }
-		var chain func(i int) string
-		chain = func(i int) string {
-			c := s.cases[i]
-			cond := fmt.Sprintf("(eq (var %d) %s)", s.x, c.val.sx())
-			if i == len(s.cases)-1 {
-				if s.el == nil {
-					return fmt.Sprintf("(if %s %s)", cond, blockSx(c.body))
-				}
-				return fmt.Sprintf("(ife %s %s %s)", cond, blockSx(c.body), blockSx(s.el))
-			}
-			return fmt.Sprintf("(ife %s %s (seq %s skip))", cond, blockSx(c.body), chain(i+1))
+		// (sw tag (case v1 B1 (case v2 B2 … (dflt D) | skip)))
+		chain := "skip"
+		if s.el != nil {
+			chain = fmt.Sprintf("(dflt %s)", blockSx(s.el))
 		}
-		return chain(0)
+		for i := len(s.cases) - 1; i >= 0; i-- {
+			chain = fmt.Sprintf("(case %d %s %s)", s.cases[i].val.n, blockSx(s.cases[i].body), chain)
+		}
+		return fmt.Sprintf("(sw (var %d) %s)", s.x, chain)
 	case "def":
 		r := "(def"
 		for i, x := range s.xs {
@@ -1699,8 +1739,23 @@ type chanProg struct {
 	sends    [][]int // per goroutine: its sends, as indices into its parameter list
 	values   [][]int // per goroutine: the value of each send
 	recvs    []int   // main: the channels it receives from, in order
+	rvals    []int   // the value each receive delivers under Go semantics
+	stmts    []chanStmt
+	useIn    bool // main declares the input i0 (read next to a receive)
 	expected []int
 }
+
+// one statement of main: `x = <expr>; IOWrite(o0, x)` where <expr> holds one or two receives (operands are
+// evaluated left to right in Go: two receives in one expression happen in source order) or a receive and
+// an IORead
+type chanStmt struct {
+	form int // 0: <-a   1: <-a*k + <-b   2: <-a + <-b*k   3: <-a*k + IORead(i0)   4: IORead(i0) + <-a*k
+	a, b int // indices into recvs
+	k    int
+}
+
+// the constant the channel interpreter delivers on input port 0
+const chanInputValue = 5
 
 func genChanProg(r *common.Rng) *chanProg {
 	cp := &chanProg{w: []int{8, 16, 32}[r.Intn(3)], nch: 2 + r.Intn(3)}
@@ -1728,10 +1783,14 @@ func genChanProg(r *common.Rng) *chanProg {
 	}
 	val := 1
 	for g := range cp.prods {
-		n := 1 + r.Intn(3)
+		n := 1 + r.Intn(4)
 		var sd, vs []int
 		for i := 0; i < n; i++ {
-			sd = append(sd, r.Intn(len(cp.prods[g])))
+			k := r.Intn(len(cp.prods[g]))
+			if i > 0 && r.Bool() {
+				k = sd[i-1] // runs of sends on one channel: two receives from it in one expression
+			}
+			sd = append(sd, k)
 			vs = append(vs, (val*7+3)%250+1)
 			val++
 		}
@@ -1752,8 +1811,34 @@ func genChanProg(r *common.Rng) *chanProg {
 		}
 		g := ready[r.Intn(len(ready))]
 		cp.recvs = append(cp.recvs, cp.prods[g][cp.sends[g][pos[g]]])
-		cp.expected = append(cp.expected, cp.values[g][pos[g]])
+		cp.rvals = append(cp.rvals, cp.values[g][pos[g]])
 		pos[g]++
+	}
+	// group the receives into statements
+	mask := (uint64(1) << uint(cp.w)) - 1
+	for i := 0; i < len(cp.recvs); {
+		st := chanStmt{a: i, k: 2 + r.Intn(8)}
+		var v uint64
+		switch {
+		case i+1 < len(cp.recvs) && r.Chance(1, 2):
+			st.form, st.b = 1+r.Intn(2), i+1
+			if st.form == 1 {
+				v = uint64(cp.rvals[i])*uint64(st.k) + uint64(cp.rvals[i+1])
+			} else {
+				v = uint64(cp.rvals[i]) + uint64(cp.rvals[i+1])*uint64(st.k)
+			}
+			i += 2
+		case r.Chance(1, 5):
+			st.form = 3 + r.Intn(2)
+			cp.useIn = true
+			v = uint64(cp.rvals[i])*uint64(st.k) + chanInputValue
+			i++
+		default:
+			v = uint64(cp.rvals[i])
+			i++
+		}
+		cp.stmts = append(cp.stmts, st)
+		cp.expected = append(cp.expected, int(v&mask))
 	}
 	return cp
 }
@@ -1776,7 +1861,13 @@ func (cp *chanProg) source() string {
 	for c := 0; c < cp.nch; c++ {
 		fmt.Fprintf(&sb, "\tvar c%d chan uint%d\n", c, cp.w)
 	}
+	if cp.useIn {
+		sb.WriteString("\tvar i0 bondgo.Input\n")
+	}
 	fmt.Fprintf(&sb, "\tvar x uint%d\n\to0 = bondgo.Make(bondgo.Output, 1)\n", cp.w)
+	if cp.useIn {
+		sb.WriteString("\ti0 = bondgo.Make(bondgo.Input, 2)\n")
+	}
 	for g, chs := range cp.prods {
 		var as []string
 		for _, c := range chs {
@@ -1784,8 +1875,22 @@ func (cp *chanProg) source() string {
 		}
 		fmt.Fprintf(&sb, "\tgo prod%d(%s)\n", g, strings.Join(as, ", "))
 	}
-	for _, c := range cp.recvs {
-		fmt.Fprintf(&sb, "\tx = <-c%d\n\tbondgo.IOWrite(o0, x)\n", c)
+	for _, st := range cp.stmts {
+		a := cp.recvs[st.a]
+		var e string
+		switch st.form {
+		case 1:
+			e = fmt.Sprintf("<-c%d*%d + <-c%d", a, st.k, cp.recvs[st.b])
+		case 2:
+			e = fmt.Sprintf("<-c%d + <-c%d*%d", a, cp.recvs[st.b], st.k)
+		case 3:
+			e = fmt.Sprintf("<-c%d*%d + bondgo.IORead(i0)", a, st.k)
+		case 4:
+			e = fmt.Sprintf("bondgo.IORead(i0) + <-c%d*%d", a, st.k)
+		default:
+			e = fmt.Sprintf("<-c%d", a)
+		}
+		fmt.Fprintf(&sb, "\tx = %s\n\tbondgo.IOWrite(o0, x)\n", e)
 	}
 	sb.WriteString("}\n")
 	return sb.String()
@@ -1916,6 +2021,12 @@ func runChannels(progs [][]string, locmap [][]int, req map[int][]int, w int, max
 				p.regs[f[1]] = v & mask
 			case "cpy":
 				p.regs[f[1]] = p.regs[f[2]]
+			case "add":
+				p.regs[f[1]] = (p.regs[f[1]] + p.regs[f[2]]) & mask
+			case "mult":
+				p.regs[f[1]] = (p.regs[f[1]] * p.regs[f[2]]) & mask
+			case "i2r":
+				p.regs[f[1]] = chanInputValue & mask
 			case "r2m":
 				p.mem[f[2]] = p.regs[f[1]]
 			case "m2r":
